@@ -39,10 +39,12 @@ structure Accepted (p0 : Parser) (reqs : List LinkReq) (p : Parser) : Prop where
   fresh : p0.links = []
   dests : ∀ a ∈ p0.actions, a.dest ≠ []
   noLinkActs : ∀ a ∈ p0.actions, a.kind ≠ .link
+  opts : ∀ oa ∈ p0.optActs, oa.2 ∈ p0.actions          -- `_option_string_actions` holds actions of the parser …
+  optsNodup : (p0.optActs.map (·.1)).Nodup              -- … under distinct option strings (it is a dict)
   ok : addLinks p0 reqs = .ok p
 
 theorem Accepted.inv {p0 : Parser} {reqs : List LinkReq} {p : Parser} (h : Accepted p0 reqs p) : Inv p :=
-  Inv.steps reqs p0 p (Inv.init p0 h.fresh h.dests h.noLinkActs) h.ok
+  Inv.steps reqs p0 p (Inv.init p0 h.fresh h.dests h.noLinkActs h.opts) h.ok
 
 /-! ## accepted link sets -/
 
@@ -138,6 +140,32 @@ theorem C15_option_rejected (E : Env) (p0 p : Parser) (reqs : List LinkReq) (h :
     exact List.any_eq_true.mpr ⟨⟨l.target, .link⟩, h.inv.plainAct l hl hk, by simp⟩
   unfold parse
   rw [feedAll_linkCall p inputs [] ⟨i, hi, hpt, hchan⟩]
+
+/-- EVERY option string of a plain target is rejected: (1) after the accepted calls no entry of
+    `_option_string_actions` refers to an action that is no longer in the parser; (2) for the call that replaced the
+    action `ta` (wherever it stands in the sequence), every option string that reached `ta` at that moment — the
+    `--target` spelling, short and long aliases, the `--no_` form of a yes/no flag — reaches the link action in the
+    final parser, and argparse's call of it raises. -/
+theorem C15_every_option_string_rejected (p0 p : Parser) (reqs : List LinkReq) (h : Accepted p0 reqs p) :
+    (∀ oa ∈ p.optActs, oa.2 ∈ p.actions) ∧
+    ∀ (pre post : List LinkReq) (r : LinkReq), reqs = pre ++ r :: post →
+      ∃ p1 ta, addLinks p0 pre = .ok p1 ∧ findParent p1.actions r.target = some ta ∧
+        ((!ta.kind.isSubT || ta.dest == r.target) = true →
+          ∀ o, (o, ta) ∈ p1.optActs → optionCall p o = .error .linkCall) := by
+  refine ⟨h.inv.optOK, fun pre post r hr => ?_⟩
+  have hok := h.ok
+  rw [hr] at hok
+  obtain ⟨p1, p2, h1, h2, h3⟩ := addLinks_append pre r post p0 p hok
+  obtain ⟨ta, hfp, hred, _⟩ := addLink_redirects p1 p2 _ _ _ _ h2
+  refine ⟨p1, ta, h1, hfp, fun hrep o ho => ?_⟩
+  have hm2 := (hred hrep).1 o ho
+  have hm := (addLinks_opts post p2 p h3).2 o r.target hm2
+  have hkeys : (p.optActs.map (·.1)).Nodup := by
+    rw [(addLinks_opts post p2 p h3).1, addLink_optKeys p1 p2 _ _ _ _ h2, (addLinks_opts pre p0 p1 h1).1]
+    exact h.optsNodup
+  unfold optionCall
+  rw [find_of_nodup_keys p.optActs o _ hkeys hm]
+  rfl
 
 /-! ## dump and re-parse -/
 
@@ -418,7 +446,7 @@ def reqsOk : List LinkReq :=
     dict coercion, an `init_args` target and a list-of-classes target -/
 example : Accepted p0Ok reqsOk (parserOf p0Ok reqsOk) ∧
     nonNested (parserOf p0Ok reqsOk).links = true ∧ (parserOf p0Ok reqsOk).required = [] :=
-  ⟨⟨rfl, by decide, by decide, rfl⟩, by decide, rfl⟩
+  ⟨⟨rfl, by decide, by decide, by decide, by decide, rfl⟩, by decide, rfl⟩
 
 /-- … and a parse succeeds: `c` given by a config is overridden, `m` receives the group as a dict -/
 example : parse Ew (parserOf p0Ok reqsOk)
@@ -534,5 +562,23 @@ open Jap.Gen.LinksOrder in
 /-- `set_target_value` writes by item assignment (replacement), in the items of a list and at the target key -/
 theorem C15_code_target_assignment :
     setTargetWrites = ["item[child_key] = value", "cfg[target_key] = value"] := by decide
+
+/-- a target with a short alias, a long alias and (as for a yes/no flag) a `--no_` form: all four spellings raise
+    after the link, the options of the other arguments do not -/
+example :
+    let c : Action := arg (key "c")
+    let p0 : Parser := { actions := [arg (key "a"), c], required := [], links := [],
+                         optActs := [("--a", arg (key "a")), ("--c", c), ("-C", c), ("--cc", c), ("--no_c", c)] }
+    let p := parserOf p0 [⟨[key "a"], [], key "c", .none⟩]
+    optionCall p "--c" = .error .linkCall ∧ optionCall p "-C" = .error .linkCall ∧
+    optionCall p "--cc" = .error .linkCall ∧ optionCall p "--no_c" = .error .linkCall ∧
+    optionCall p "--a" = .ok () := ⟨rfl, rfl, rfl, rfl, rfl⟩
+
+open Jap.Gen.LinksOrder in
+/-- the code redirects every option string of the target action (a loop over `option_strings`), and
+    `strip_link_target_keys` visits every type-hint action that has `sub_add_kwargs` (mixed unions included) -/
+theorem C15_code_redirect_and_strip_filter :
+    optionRedirect = ["for key in self.target[1].option_strings", "parser._option_string_actions[key] = self"] ∧
+    stripFilter = ["isinstance(a, ActionLink)", "isinstance(a, ActionTypeHint) and hasattr(a, 'sub_add_kwargs')"] := by decide
 
 end Jap.Props.C15
